@@ -389,6 +389,11 @@ fn gen_layout_level(r: &mut Rng, thorough: bool) -> Vec<String> {
         "(fork 1 2 (lsft rsft))",
         "(fork (fork 1 2 (lsft rsft)) (fork 1 2 (lsft rsft)) (lctl))",
         "(multi (fork 1 2 (lsft rsft)) (on-release-fakekey v0 release))",
+        // a switch inside one branch only: the parser rewrites such forks (fill_chords) and must keep
+        // the other branch
+        "(fork (switch () 1 break) 2 (lsft rsft))",
+        "(fork 1 (switch () 2 break) (lsft rsft))",
+        "(fork (multi (switch ((key-history q 8)) q break () 1 break)) 2 (lsft rsft))",
     ];
     let switches = [
         "(switch ((or lsft rsft)) 3 break () 4 break)",
